@@ -19,6 +19,7 @@ def plan(tier, seed):
                env=dict(VERIF_SCHEMA=shape, VERIF_OP=op, VERIF_NPOS=npos))
         j["name"] += "[%s,%s,%d]" % (shape, op, npos)
         jobs.append(j)
+    jobs.append(ch("C20", "vf/pyshim/h_partfile.py", "h_make_part_file", t, ["writer.make_part_file"]))
     jobs.append(ch("C20", F, "h_head_leaves_handle", t, ["api.ParquetFile.head", "api.ParquetFile.__getitem__"]))
     jobs.append(dict(name="C20-lemma-no-module-buffers", kind="pyfunc", timeout=300,
                      payload=dict(func="vf.pyshim.lemma_c20:no_module_buffers")))
